@@ -1,0 +1,26 @@
+//go:build verif
+
+package epd
+
+// Verification hooks (build tag verif). Add-only.
+
+// VerifShuffleIndex exposes shuffleIndex.
+func VerifShuffleIndex(x, n, seed uint64) uint64 { return shuffleIndex(x, n, seed) }
+
+// VerifFeistel exposes feistel.
+func VerifFeistel(x, seed uint64, bits int) uint64 { return feistel(x, seed, bits) }
+
+// VerifRoundFunc exposes roundFunc.
+func VerifRoundFunc(x, k uint64) uint64 { return roundFunc(x, k) }
+
+// VerifManifest exposes the line manifest as (start, end) pairs.
+func (c Chunker) VerifManifest() [][2]int64 {
+	out := make([][2]int64, len(c.lineManifest))
+	for i, l := range c.lineManifest {
+		out[i] = [2]int64{l.start, l.end}
+	}
+	return out
+}
+
+// VerifBackingBytes is the refill buffer size.
+const VerifBackingBytes = backingBytes
